@@ -16,12 +16,12 @@ from gen import F
 import codecgen as G
 from codecgen import state_of, diff_state, cbytes
 
-MAX_LEN = {'bqm': 2048, 'qm': 2048, 'cqm': 3072, 'dqm': 3072}
+MAX_LEN = {'bqm': 2048, 'qm': 2048, 'cqm': 3072, 'dqm': 3072, 'cqm_legacy': 3072}
 PER_PREFIX_TIMEOUT = 10
 
 
 def gen_case(rng, tier):
-    kind = rng.choice(['bqm', 'bqm', 'qm', 'qm', 'cqm', 'dqm', 'cqm_member', 'cqm_member'])
+    kind = rng.choice(['bqm', 'bqm', 'qm', 'qm', 'cqm', 'dqm', 'cqm_member', 'cqm_member', 'cqm_legacy', 'cqm_legacy_member'])
     c = {"kind": kind, "how": rng.choice(['bytes', 'bytes', 'file', 'load_bytes'])}
     wild = 0.15
     if kind == 'bqm':
@@ -46,10 +46,22 @@ def gen_case(rng, tier):
         c["cqm"] = G.rand_cqm_desc(rng, nmax=4, cmax=2, wild_p=wild)
         c["compress"] = rng.random() < 0.5
         c["member_sel"] = rng.random()
+    elif kind in ('cqm_legacy', 'cqm_legacy_member'):
+        # CQM serialization version 1.x (read by _from_file_legacy), written by hand: whole-file prefixes, or one
+        # QM / BQM member (objective, a constraint's lhs) cut inside a valid zip
+        c["cqm"] = G.rand_cqm_desc(rng, nmax=2 if kind == 'cqm_legacy' else 4, cmax=1 if kind == 'cqm_legacy' else 2, wild_p=wild)
+        c["minor"] = rng.choice([0, 1, 2, 3])
+        c["compress"] = rng.random() < 0.5
+        c["bqm_lhs"] = [rng.random() < 0.5 for _ in range(4)]
+        c["bqm_version"] = rng.choice([1, 2])
+        c["member_sel"] = rng.random()
     else:
         c["dqm"] = G.rand_dqm_desc(rng, nmax=3, wild_p=wild)
         c["compress"] = rng.random() < 0.5
         c["ignore_labels"] = rng.random() < 0.2
+        if rng.random() < 0.3:
+            # the file written by hand (no dimod) in format version 1.0 (no offset entry) or 1.1
+            c["hand_minor"] = rng.choice([0, 1])
     return c
 
 
@@ -69,6 +81,12 @@ def make_file(c):
         m = G.build_cqm(c["cqm"])
         data = m.to_file(compress=c["compress"]).read()
         exp = state_of(m)
+    elif kind in ('cqm_legacy', 'cqm_legacy_member'):
+        m = G.build_cqm(c["cqm"])
+        s0 = state_of(m)
+        minor = 3 if any(x["soft"] for x in s0["constraints"].values()) else c["minor"]
+        data, _ = G.legacy_cqm_bytes(m, minor, compress=c["compress"], bqm_lhs=c["bqm_lhs"], bqm_version=c["bqm_version"])
+        exp = G.legacy_expected_state(s0)
     elif kind in ('bigqm', 'memcheck'):
         # many INTEGER variables, no interactions; only the head of the file is kept
         m = dimod.QuadraticModel()
@@ -77,10 +95,13 @@ def make_file(c):
         exp = None
     else:
         m = G.build_dqm(c["dqm"])
-        data = m.to_file(compress=c["compress"], ignore_labels=c["ignore_labels"]).read()
-        exp = state_of(m)
-        if c["ignore_labels"]:
-            exp = G.relabelled_state(exp, m.num_variables())
+        if c.get("hand_minor") is not None:
+            data, exp = G.dqm_bytes_by_hand(c["dqm"], c["hand_minor"], c["compress"])
+        else:
+            data = m.to_file(compress=c["compress"], ignore_labels=c["ignore_labels"]).read()
+            exp = state_of(m)
+            if c["ignore_labels"]:
+                exp = G.relabelled_state(exp, m.num_variables())
     return m, data, exp
 
 
@@ -204,10 +225,11 @@ def run_memcheck_member(c, m, data, exp):
 
 def run_member(c, m, data, exp):
     mem = G.zip_members(data)
-    names = ['varinfo', 'objective'] + sorted(n for n in mem if n.endswith('/lhs'))
+    legacy = c["kind"] == 'cqm_legacy_member'
+    names = ([] if legacy else ['varinfo']) + ['objective'] + sorted(n for n in mem if n.endswith('/lhs'))
     name = names[min(int(c["member_sel"] * len(names)), len(names) - 1)]
     blob = mem[name]
-    feats = {"kind": "cqm_member", "member": 'lhs' if name.endswith('/lhs') else name}
+    feats = {"kind": c["kind"], "member": 'lhs' if name.endswith('/lhs') else name}
     if len(blob) > 1536:
         return {"coq": None, "py_fail": None, "features": feats, "nontrivial": False, "observed": {"len": len(blob), "skipped": "too long"}}
     ref_digest = hashlib.sha256(json.dumps(exp, sort_keys=True).encode()).hexdigest()
@@ -226,9 +248,15 @@ def run_member(c, m, data, exp):
     ok = buckets.get("equal", [])
     if name == 'varinfo':
         fmt = f"(FVinfo {cnat(len(m.variables))})"
+    elif legacy:
+        # a version-1.x member is a whole QM or BQM file
+        fmt = "FBqm" if blob[:8] == b'DIMODBQM' else "FQm"
+        feats["member_fmt"] = fmt
     else:
         fmt = "FExpr"
     coq = f"(mkCase {fmt} {cbytes(blob)} (seq 0 {len(blob)}) {clist([cnat(k) for k in ok])})"
+    if legacy and not G.cqm_all_modelled(m):
+        coq = None
     return {"coq": coq, "py_fail": "; ".join(fails) if fails else None, "features": feats, "nontrivial": len(blob) > 64,
             "observed": {"member": name, "len": len(blob), "buckets": {b: len(v) for b, v in buckets.items()},
                          "first_equal": ok[0] if ok else None}}
@@ -243,13 +271,13 @@ def run_case(c):
         return run_special(c, m, data, exp)
     if kind == 'memcheck_member':
         return run_memcheck_member(c, m, data, exp)
-    if kind == 'cqm_member':
+    if kind in ('cqm_member', 'cqm_legacy_member'):
         return run_member(c, m, data, exp)
     if len(data) > MAX_LEN[kind]:
         return {"coq": None, "py_fail": None, "features": feats, "nontrivial": False, "observed": {"len": len(data), "skipped": "too long"}}
     ref_digest = hashlib.sha256(json.dumps(exp, sort_keys=True).encode()).hexdigest()
     ks = list(range(len(data)))
-    res = run_prefixes(kind, data, ks, c["how"], ref_digest)
+    res = run_prefixes('cqm' if kind == 'cqm_legacy' else kind, data, ks, c["how"], ref_digest)
     if "ref" in res:
         return {"coq": None, "py_fail": f"loading the complete file does not reproduce the model ({res['ref']})",
                 "features": dict(feats, full_load=False), "nontrivial": True}
@@ -272,6 +300,8 @@ def run_case(c):
     if ok and ok != list(range(ok[0], len(data))):
         fails.append(f"prefixes loading as the equal model are not a contiguous tail: {ok[:10]}...")
     feats["tail_ok"] = len(ok)
+    if c.get("hand_minor") is not None:
+        feats["hand_minor"] = c["hand_minor"]
     return {"coq": coq, "py_fail": "; ".join(fails) if fails else None, "features": feats,
             "nontrivial": len(data) > 64,
             "observed": {"len": len(data), "buckets": {b: len(v) for b, v in buckets.items()}, "first_equal": ok[0] if ok else None}}
